@@ -1,0 +1,8 @@
+//go:build !verif
+
+package channels
+
+import datatransfer "github.com/filecoin-project/go-data-transfer/v2"
+
+// verifTrace is a no-op unless the library is built with the "verif" tag (see verifhook_on.go).
+func verifTrace(datatransfer.Event, datatransfer.ChannelState) {}
